@@ -3,8 +3,15 @@
 
    Granularity: one label = one atomic region of the Go code.
      LStep t   thread t (a Get/GetWithError call) does its next region:
-                 PStart  -> the locked region of getOrCreate (hit / found-loading / create)
-                 PWait e -> wg.Wait() returned: e.wg == nil ? hit : reattempt (back to PStart)
+                 PStart false -> getOrCreate's first locked region: payload[key] examined (hit / found-loading:
+                            remember its wg, unlock / absent: create)                       [PEnter]
+                 PWait e -> wg.Wait() returned (enabled once the loader finished, success or failure):
+                            e.wg == nil ? hit : reattempt (reportReattempt, on to PStart true)
+                 PStart true -> the waiter of a FAILED load re-takes the lock and RE-EXAMINES payload[key]
+                            (`c.mu.Lock(); e, ok = c.payload[key]` at the end of the `for ok` loop): valid => hit,
+                            loading => wait again, absent => create                          [PRetry]
+                            (variant v_retry_recheck = false: the seeded `if ok` form, no re-examination: it
+                            installs a fresh loading entry over whatever payload[key] holds now)
                  PLoad e -> loader returned: save's locked region (value) | recover (error, panic);
                             wg.Done() is merged into this region (waiters cannot observe the gap)
                  PAdd    -> save's gen.size.Add after the unlock
@@ -27,7 +34,11 @@ Inductive estatus := ELoading | EValid | EAbandoned.
 Record entry := mkE { ecache : nat; ekey : nat; eowner : nat; estat : estatus; egen : nat;
                       esize : Z; edeleted : bool; eattached : bool; evalue : Z }.
 
-Inductive pc := PStart | PWait (e : nat) | PLoad (e : nat) | PAdd (g : nat) (s v : Z) | PDone (r : result).
+(* PStart rt: about to take Cache.mu in getOrCreate; rt = false: entering the call; rt = true: a waiter whose awaited
+   loader failed, after reportReattempt, before `c.mu.Lock(); e, ok = c.payload[key]` *)
+Inductive pc := PStart (retry : bool) | PWait (e : nat) | PLoad (e : nat) | PAdd (g : nat) (s v : Z) | PDone (r : result).
+Notation PEnter := (PStart false).
+Notation PRetry := (PStart true).
 Record thread := mkT { tcache : nat; tkey : nat; tout : outcome; tpc : pc }.
 Record cache := mkC { ccur : nat; creleased : bool }.
 Record gen := mkG { gsize : Z; gstale : bool }.
@@ -128,10 +139,15 @@ Record variant := mkV {
   v_add_locked : bool;     (* save does gen.size.Add(size) before c.mu.Unlock() (repair after the hook commit 64b20cb) *)
   v_rotate_atomic : bool;  (* Cleaner.rotate switches the caches and updates lastGen / generations in ONE critical section
                               (false: a seeded regression that ran the SetGeneration loop over a snapshot before taking the lock) *)
-  v_rebuild_all : bool     (* recreatePayload copies EVERY entry into the new map (false: a seeded regression that
+  v_rebuild_all : bool;    (* recreatePayload copies EVERY entry into the new map (false: a seeded regression that
                               skipped entries with wg != nil, i.e. also entries that are still loading) *)
+  v_retry_recheck : bool   (* getOrCreate's waiter loop is `for ok { ...; c.mu.Lock(); e, ok = c.payload[key] }`: after a failed
+                              load the waiter re-reads payload[key] under the lock (false: a seeded regression `if ok { ...;
+                              c.mu.Lock() }` that falls through to the create code without looking at the map again) *)
 }.
-Definition repaired := mkV true true true true true true.
+Definition repaired := mkV true true true true true true true.
+(* the waiter retries WITHOUT re-examining the map (only in the seeded variant, only on the retry path) *)
+Definition blind_retry (var : variant) (rt : bool) : bool := rt && negb (v_retry_recheck var).
 
 (* Cache.recover: `if c.payload[key] == e { delete(c.payload, key) }` (before 290ab18: delete by key,
    whatever entry is there now), then wg.Done() on the creator's own (still wg != nil, i.e. abandoned) entry *)
@@ -149,11 +165,16 @@ Definition step_thread (var : variant) (st : state) (t : nat) : option state :=
     let c := tcache th in
     let k := tkey th in
     match tpc th with
-    | PStart =>
+    | PStart rt =>
         match nth_error (caches st) c with
         | None => None
         | Some ca =>
           if creleased ca then None (* payload == nil: the Go code panics on the map assignment *)
+          else if blind_retry var rt then
+            (* seeded `if ok` variant: `c.payload[key] = e` without `e, ok = c.payload[key]`: whatever entry the key
+               maps to now is overwritten (it leaves the map; nothing marks it deleted, its size stays accounted) *)
+            let es0 := match find_entry c k (entries st) with Some j => upd j detach (entries st) | None => entries st end in
+            Some (set_thr (set_entries st (es0 ++ [mkE c k t ELoading (ccur ca) 0 false true 0])) t (PLoad (length es0)))
           else match find_entry c k (entries st) with
           | Some i =>
               match nth_error (entries st) i with
@@ -175,7 +196,7 @@ Definition step_thread (var : variant) (st : state) (t : nat) : option state :=
           match estat en with
           | ELoading => None (* blocked in wg.Wait() *)
           | EValid => Some (set_thr st t (PDone (RVal (evalue en))))
-          | EAbandoned => Some (set_thr st t PStart)
+          | EAbandoned => Some (set_thr st t PRetry)
           end
         end
     | PLoad i =>
@@ -388,7 +409,7 @@ Inductive label :=
 
 Definition step_v (var : variant) (st : state) (l : label) : option state :=
   match l with
-  | LSpawn c k o => Some (set_threads st (threads st ++ [mkT c k o PStart]))
+  | LSpawn c k o => Some (set_threads st (threads st ++ [mkT c k o PEnter]))
   | LStep t => step_thread var st t
   | LNewCache => Some (new_cache st)
   | LRelease c => if Nat.ltb c (length (caches st)) then Some (release c st) else None
@@ -455,6 +476,11 @@ Inductive ev :=
 | EResumeSave (t : nat)  (* the loader of t returns a value; t runs save up to (not including) gen.size.Add: it is
                             parked at the schedule point verifhook.At("cache.save.after-unlock"); waiters wake up *)
 | EAdd (t : nat)         (* t, parked there, does its gen.size.Add and returns *)
+| EResumePark (t : nat)  (* the loader of t returns (value / error / panic): t runs to its return; the goroutines that waited
+                            for t's entry wake up and do ONE region each: hit (PDone), or -- after a failed load -- they are
+                            parked after reportReattempt, before re-taking Cache.mu (PRetry) *)
+| ERelock (t : nat)      (* t, parked there, re-takes the lock and re-examines payload[key]: it returns (valid entry), blocks in
+                            wg.Wait() again (loading entry of a later caller) or creates an entry and enters its loader *)
 | ENew
 | ERelease (c : nat)
 | ERotate
@@ -482,7 +508,7 @@ Fixpoint run_thread (fuel : nat) (st : state) (t : nat) : option state :=
 Definition wake (st : state) (t : nat) : option state :=
   match step st (LStep t) with
   | Some st1 => match thread_pc st1 t with
-                | Some PStart => step st1 (LStep t)
+                | Some (PStart _) => step st1 (LStep t)
                 | _ => Some st1
                 end
   | None => None
@@ -501,6 +527,13 @@ Fixpoint wake_all (ws : list nat) (st : state) : option state :=
   match ws with
   | [] => Some st
   | t :: r => match wake st t with Some st' => wake_all r st' | None => None end
+  end.
+
+(* woken waiters, one region each (wg.Wait() returned; hit, or parked before the retry) *)
+Fixpoint step_all (ws : list nat) (st : state) : option state :=
+  match ws with
+  | [] => Some st
+  | t :: r => match step st (LStep t) with Some st' => step_all r st' | None => None end
   end.
 
 (* Cache.Cleanup over the bucket list, accumulating BytesReleased / BucketsCleaned *)
@@ -571,6 +604,23 @@ Definition exec_ev (st : state) (e : ev) : option (state * list Z) :=
                         end
           | None => None
           end
+      | _ => None
+      end
+  | EResumePark t =>
+      match thread_pc st t with
+      | Some (PLoad e) =>
+          match run_thread 3 st t with
+          | Some st1 => match step_all (waiters_of e (threads st1) 0%nat) st1 with
+                        | Some st2 => Some (st2, [])
+                        | None => None
+                        end
+          | None => None
+          end
+      | _ => None
+      end
+  | ERelock t =>
+      match thread_pc st t with
+      | Some PRetry => match step st (LStep t) with Some st' => Some (st', []) | None => None end
       | _ => None
       end
   | EAdd t =>
